@@ -410,6 +410,30 @@ MUTANTS = [
            lambda f, t: replace_expr(f, lambda e: u(e) == "receive_data(self.sock, size)", "receive_data(self.sock, min(size, 65536))")),
     Mutant("C19", "proxy-hash-by-identity", "C19-R1", C, "Proxy.__hash__",
            lambda f, t: replace_expr(f, lambda e: u(e) == "hash(self._pyroUri)", "hash(id(self))")),
+    # ---- additions (round-2 rules and own extensions)
+    Mutant("C01", "marshal-call-envelope-swapped", "C01-R7", SER, "MarshalSerializer.dumpsCall",
+           lambda f, t: replace_expr(f, lambda e: u(e) == "(obj, method, vargs, kwargs)", "(obj, method, kwargs, vargs)")),
+    Mutant("C01", "json-call-envelope-key-mismatch", "C01-R7", SER, "JsonSerializer.loadsCall",
+           lambda f, t: replace_expr(f, lambda e: u(e) == "data['params']", "data['kwargs']")),
+    Mutant("C02", "gate-called-with-star-args", "C02-R1", S, "Daemon.handleRequest",
+           lambda f, t: replace_expr(f, lambda e: u(e) == "_get_exposed_property_value(obj, vargs[0])", "_get_exposed_property_value(obj, *vargs)")),
+    Mutant("C02", "metadata-cache-keyed-by-name", "C02-R3", S, "_get_exposed_members",
+           lambda f, t: replace_expr(f, lambda e: u(e) == "(obj, only_exposed)", "(obj.__name__, only_exposed)")),
+    Mutant("C03", "no-reconnect-after-release", "C03-R8", C, "Proxy._pyroInvoke",
+           lambda f, t: delete_stmt(f, lambda s: isinstance(s, ast.If) and "self._pyroConnection is None" in u(s.test))),
+    Mutant("C07", "property-errors-swallowed", "C07-R6", S, "_get_exposed_property_value",
+           lambda f, t: replace_stmt(f, lambda s: isinstance(s, ast.If) and "isdatadescriptor" in u(s.test),
+                                     lambda s: stmts("try:\n    pass\nexcept AttributeError:\n    pass")[0:0] + [ast.Try(body=[s], handlers=[ast.ExceptHandler(type=ast.Name("AttributeError", ast.Load()), name=None, body=[ast.Pass()])], orelse=[], finalbody=[])])),
+    Mutant("C08", "validator-in-conditional-expression", "C08-R4", S, "Daemon._handshake",
+           lambda f, t: replace_expr(f, lambda e: u(e) == "self.validateHandshake(conn, data['handshake'])", "self.validateHandshake(conn, data['handshake']) if 'handshake' in data else None")),
+    Mutant("C10", "lifetime-only-for-attached-streams", "C10-R5", S, "Daemon._housekeeping",
+           lambda f, t: set_test(f, lambda e: u(e) == "info", "info and not info[2]")),
+    Mutant("C14", "prefix-filter-case-folded", "C14-R8", NSV, "NameServer.list",
+           lambda f, t: replace_expr(f, lambda e: u(e) == "name.startswith(prefix)", "name.lower().startswith(prefix.lower())")),
+    Mutant("C18", "handoff-after-lock-release", "C18-R3", ST, "Pool.process",
+           lambda f, t: _move_out_of_with(f, lambda s: isinstance(s, ast.Expr) and u(s) == "worker.process(job)")),
+    Mutant("C19", "host-in-format-string", "C19-R3", CO, "URI.location",
+           lambda f, t: replace_expr(f, lambda e: u(e) == "'%s:%d' % (self.host, self.port)", "(self.host + ':%d') % self.port")),
 ]
 
 
@@ -490,6 +514,18 @@ def _move_into_loop(fn, pred):
     if st0 is None or not loops:
         raise LookupError("commit / loop not found")
     loops[0].body.append(st0)
+
+
+def _move_out_of_with(fn, pred):
+    for lst in stmt_lists(fn):
+        for i, st in enumerate(lst):
+            if isinstance(st, ast.With):
+                for inner in list(st.body):
+                    if pred(inner):
+                        st.body.remove(inner)
+                        lst.insert(i + 1, inner)
+                        return
+    raise LookupError("statement inside a with block not found")
 
 
 def _drop_key(d, key):
